@@ -42,6 +42,16 @@ class G:
         self.p = PROFILE[backend]
         self.uses = []
         self.labels = set()
+        self.want = None  # None | "guarded" | "unguarded": steer the next template's guard kind
+
+    def guard(self, kinds):
+        unguarded = [k for k in kinds if k in ("none", "ifexp-insufficient", "ifexp-offbyone")]
+        guarded = [k for k in kinds if k not in unguarded]
+        if self.want == "guarded" and guarded:
+            return self.pick(guarded)
+        if self.want == "unguarded" and unguarded:
+            return self.pick(unguarded)
+        return self.pick(kinds)
 
     def pick(self, xs):
         return self.d(st.sampled_from(list(xs)))
@@ -70,7 +80,7 @@ class G:
         s, ms = self.seq(ev)
         m = self.pick(ms)
         val = f"{s}.First().{m}()" if self.d(st.booleans()) else f"{s}.Select(lambda f: f.{m}() * 2).First()"
-        g = self.pick(["none", "ifexp", "ifexp-else", "and", "or", "ifexp-insufficient", "ifexp-nested", "none"])
+        g = self.guard(["none", "ifexp", "ifexp-else", "and", "or", "ifexp-insufficient", "ifexp-nested", "none"])
         self.labels.add("First:" + g)
         c = self.const()
         if g == "none":
@@ -96,7 +106,7 @@ class G:
         v = self.pick(self.p["vec"])
         k = self.pick([0, 0, 1, 2])
         val = f"{obj}.{v}()[{k}]"
-        g = self.pick(["none", "ifexp", "ifexp-else", "and", "or", "ifexp-offbyone", "none"])
+        g = self.guard(["none", "ifexp", "ifexp-else", "and", "or", "ifexp-offbyone", "none"])
         self.labels.add("index:" + g)
         c = self.const()
         if g == "none":
@@ -118,7 +128,7 @@ class G:
         if not self.p["nonnull"]:
             self.labels.add("link:unguarded")
             return val, None
-        g = self.pick(["none", "ifexp", "ifexp-else", "and", "or"])
+        g = self.guard(["none", "ifexp", "ifexp-else", "and", "or"])
         self.labels.add("link:" + g)
         c = self.const()
         if g == "none":
@@ -140,7 +150,7 @@ class G:
         if self.d(st.booleans()):
             s = f"{s}.Where(lambda t: t.{self.pick(ms)}() > {self.const()})"
         val = f"{s}.First().{m}()"
-        g = self.pick(["none", "ifexp", "ifexp-else", "and", "or"])
+        g = self.guard(["none", "ifexp", "ifexp-else", "and", "or"])
         self.labels.add("sub-First:" + g)
         c = self.const()
         if g == "none":
@@ -162,8 +172,11 @@ def cases(draw, backend):
     level = draw(st.sampled_from(["event", "object", "object-where", "event-where"]))
     ncols = draw(st.integers(1, 3))
     cols = []
+    ncols = max(ncols, 2) if draw(st.integers(0, 3)) > 0 else ncols
+    wants = ["guarded", "unguarded"] + [None] * 3 if ncols >= 2 else [None]
     if level.startswith("event"):
-        for _ in range(ncols):
+        for ci in range(ncols):
+            g.want = wants[ci]
             k = draw(st.sampled_from(["first", "first", "inner"]))
             if k == "first":
                 cols.append(g.first_template("e"))
@@ -204,8 +217,9 @@ def cases(draw, backend):
             outer = f"e.{acc}({b!r}).Where(lambda o: isNonnull(o.{l}()))"
             g.labels.add("guard:object-Where")
             cols.append((f"j.{l}().{g.pick(ms)}()", None))
-        for _ in range(ncols):
-            t = draw(st.sampled_from(["index", "link", "subfirst", "link"]))
+        for ci in range(ncols):
+            g.want = wants[ci]
+            t = draw(st.sampled_from(["index", "link", "subfirst", "link", "subfirst", "index"]))
             r = {"index": g.index_template, "link": g.link_template, "subfirst": g.sub_first_template}[t]("j")
             if r is None:
                 r = g.link_template("j")
